@@ -152,16 +152,6 @@ theorem crash_before_publish (fs : Fs) (h : Nat) (P : List Nat) (steps : List St
   rw [hload0]
   exact hload
 
-/-- the steps of one transaction before / from the publish point -/
-theorem take_txSteps_pre (h : Nat) (tx : Tx) (n : Nat) (hn : n ≤ (txPre h tx).length) :
-    (txSteps h tx).take n = (txPre h tx).take n := by
-  rw [txSteps_split, List.take_append_of_le_length hn]
-
-theorem take_txSteps_post (h : Nat) (tx : Tx) (n : Nat) (hn : (txPre h tx).length ≤ n) :
-    (txSteps h tx).take n = txPre h tx ++ (txPost h tx).take (n - (txPre h tx).length) := by
-  rw [txSteps_split, List.take_append]
-  rw [List.take_of_length_le hn]
-
 /-- **Before or after, nothing in between** — for one transaction (`Transaction::write`,
     `publish`, working-copy update) started in a state with the single head `h`:
     killed at step `k ≤ (#object writes) + 1` (i.e. up to and including the moment `opheads.add`
@@ -319,6 +309,15 @@ theorem publish_before_write_breaks :
   decide
 
 /-! ## Non-vacuity: the hypotheses hold of the schematic repository the driver starts from -/
+
+/-- the schematic repository every driver request starts from satisfies the invariant -/
+theorem initFs_inv (n v0 t0 w wt : Nat) :
+    RepoInv (initFs n v0 t0 w wt) (initFs n v0 t0 w wt) (n - 1) [] := by
+  refine ⟨Or.inl rfl,
+    ⟨⟨if n - 1 = 0 then [] else [n - 2], v0⟩, t0, by simp [initFs, look_cons], by simp [initFs, look_cons]⟩, ?_,
+    fun _ _ hk => hk, fun _ _ hk => hk⟩
+  intro a ha
+  simp at ha
 
 theorem initFs_inv3 : RepoInv (initFs 3 0 0 2 0) (initFs 3 0 0 2 0) 2 [0, 1, 2] := by
   refine ⟨Or.inl rfl, ⟨⟨[1], 0⟩, 0, by decide, by decide⟩, ?_, fun _ _ hk => hk, fun _ _ hk => hk⟩
